@@ -425,6 +425,9 @@ def mon_C02(h):
             if j["lasterr"] == "graph":
                 if j["sched"] or j["start"] or not j["canceled"]:
                     bad.append((k, "job %d with an unbuildable graph is not simply reported canceled" % j["id"]))
+                names = {t["name"] for t in j["tasks"]}
+                if j["vars"] != "reserved" and _acyclic(j["tasks"]) and all(d in names for t in j["tasks"] for d in t["deps"]) and j["id"] not in pre_ids:
+                    bad.append((k, "job %d: an acyclic dependency graph (%s) was rejected as cyclic" % (j["id"], [(t["name"], t["deps"]) for t in j["tasks"]])))
             if j["completed"] and not j["canceled"] and j["lasterr"] == "none" and j["id"] not in pre_ids:
                 for t in j["tasks"]:
                     if began.get((j["id"], t["name"]), 0) != 1:
@@ -646,6 +649,8 @@ def mon_C10(h):
                             bad.append((k, "finished job %d is reported differently after the restart" % i))
                         if last_store_snap.get("times", {}).get(str(i)) != sn.get("times", {}).get(str(i)):
                             bad.append((k, "finished job %d: timestamps or error texts changed across the restart" % i))
+                        if b.get("hview") and j.get("hview") and b["hview"] != j["hview"]:
+                            bad.append((k, "finished job %d: the API (GET /pipelines/jobs) reports it differently after the restart: %s  ->  %s" % (i, b["hview"][:400], j["hview"][:400])))
                     elif not j["canceled"]:
                         bad.append((k, "job %d was unfinished when saved but is not reported canceled after the restart" % i))
         if sn.get("store") is not None and ev["t"] in ("save", "shutdown_return"):
